@@ -8,6 +8,7 @@ import (
 	"bytes"
 	"fmt"
 	"io"
+	"os"
 	"strconv"
 	"strings"
 	"time"
@@ -54,10 +55,17 @@ type Machine struct {
 // NewMachine prepares globals and opens a store on fs (a fresh memfs if nil).
 func NewMachine(s *vsched.Sched, cfg *store.VerifCfg, fs *vos.FS) *Machine {
 	m := &Machine{Cfg: cfg, S: s}
+	fresh := fs == nil
 	if fs == nil {
 		fs = vos.New()
 	}
 	m.FS = fs
+	confCounter++
+	if fresh && ConformanceBudget > 0 && confCounter%ConformanceStride == 1 {
+		ConformanceBudget--
+		fs.Tracing = true
+		tracedFS = fs
+	}
 	vos.Attach(fs)
 	vtime.Enable()
 	m.Open()
@@ -152,4 +160,36 @@ func ParseGetReply(raw string) ParsedGet {
 		pg.Items[parts[1]] = GetItem{Flag: flag, Body: rest[:n]}
 		rest = rest[n+2:]
 	}
+}
+
+// ---- memfs conformance: recorded call traces replayed against the real OS ----
+
+// ConformanceBudget is the number of executions of this worker whose complete
+// file-system call trace is still to be replayed against the real OS.
+var ConformanceBudget = 0
+
+// ConformanceStride spreads the traced executions over the run (every n-th fresh machine).
+var ConformanceStride = 97
+var confCounter = 0
+var tracedFS *vos.FS
+var conformanceStats struct{ traces, calls int64 }
+
+// ConformanceCheck replays the trace of the last traced execution (if any) on
+// the real OS; a divergence is a machinery failure, never a verdict.
+func ConformanceCheck() {
+	fs := tracedFS
+	tracedFS = nil
+	if fs == nil || len(fs.Trace) == 0 {
+		return
+	}
+	fs.Tracing = false
+	root := fmt.Sprintf("/dev/shm/verif-conf-%d/t%d", os.Getpid(), conformanceStats.traces)
+	n, err := vos.ReplayOnOS(fs.Trace, fs, root)
+	os.RemoveAll(fmt.Sprintf("/dev/shm/verif-conf-%d", os.Getpid()))
+	if err != nil {
+		fmt.Fprintf(os.Stderr, "MACHINERY: memfs diverges from the real OS: %v\n", err)
+		os.Exit(2)
+	}
+	conformanceStats.traces++
+	conformanceStats.calls += int64(n)
 }
